@@ -33,7 +33,7 @@ Definition v_roots_opt (v : val) : option (list bytes) :=
 
 Definition run_final (input : val) : val :=
   let k := v_fkind (vN (vnth 0 input)) in
-  let o := v_wopts (vnth 1 input) in
+  let o := apply_wopts (v_wopts (vnth 1 input)) in
   let roots := vcids (vnth 2 input) in
   let hok := hok_lookup (vL (vnth 4 input)) in
   let hdr := hdr_lookup (vL (vnth 5 input)) in
@@ -68,7 +68,7 @@ Definition readable_b (hok : bytes -> bytes -> option bool) (roots : list bytes)
 (* the property's clauses on what the implementation produced *)
 Definition prop_final (input obs : val) : val :=
   let k := v_fkind (vN (vnth 0 input)) in
-  let o := v_wopts (vnth 1 input) in
+  let o := apply_wopts (v_wopts (vnth 1 input)) in
   let roots := vcids (vnth 2 input) in
   let ro := v_roots_opt (vnth 2 input) in
   let hok := hok_lookup (vL (vnth 4 input)) in
@@ -104,7 +104,7 @@ Definition run_finalfile (input : val) : val :=
   VL [v_verdict (inspect_check hok hdr default_ropts true file); v_verdict (verify_check hok hdr file)].
 
 Definition prop_finalfile (input obs : val) : val :=
-  let o := v_wopts (vnth 0 input) in
+  let o := apply_wopts (v_wopts (vnth 0 input)) in
   let file := vB (vnth 1 input) in
   let hok := hok_lookup (vL (vnth 2 input)) in
   if vN (vnth 4 input) =? 0 then VT "ok"
@@ -118,3 +118,23 @@ Definition prop_finalfile (input obs : val) : val :=
       else if is_tagf (vnth 1 obs) "ok" then VT "ok"
       else fail "verifier-rejects" (match roots with [] => "no-roots" | _ => "" end)
     end.
+
+(* kind "finalwide": one block whose CID is too large to ship as case data -- a CIDv1 (raw codec) with
+   hash code [code] and a digest of [n] bytes -- put first into a new CARv2 store, then Finalize.
+     input  = (kind opts n code)        kind: 0 blockstore | 1 storage
+     output = (putout finalizeout indexreadable)
+   The model evaluates the first-put decision on lengths (should_put_first); a finalized file has a
+   readable index (C05_wf), whatever was decided. *)
+Definition run_finalwide (input : val) : val :=
+  let o := apply_wopts (v_wopts (vnth 1 input)) in
+  let n := vN (vnth 2 input) in
+  let code := vN (vnth 3 input) in
+  match should_put_first o (cid_v1_len 85 code n) (code =? 0) with
+  | Err e => VL [v_out (OErr e); v_out ONil; VN 1]
+  | Ok _ => VL [v_out ONil; v_out ONil; VN 1]
+  end.
+
+(* the property's clause on the implementation: after a successful Finalize the index must read back *)
+Definition prop_finalwide (input obs : val) : val :=
+  if tag_is (vnth 1 obs) "nil" && (vN (vnth 2 obs) =? 0) then fail "index-unreadable" "wide-digest"
+  else VT "ok".
